@@ -105,7 +105,9 @@ func c52ZoneSecs(z string) int {
 func runC52(c *fw.Ctx) {
 	c.SetRule("A: every entry of messages x zones x identities x timestamps appended alone to its own ref, plus every chain of <=3 entries over a reduced product, through filesystem Storage.AppendReflog, then listed by `git log -g --date=raw` (new id, name, e-mail, seconds, zone, subject) and chain-checked by `git rev-parse ref@{n}`; the expected subject is git's own normalisation of the message, obtained from real `git update-ref -m`; B: every sequence of <= max_ops operations of {commit, checkout -b, checkout main, reset --hard HEAD~1, branch -m, update-ref -m} run by real git with rotating committer identities/zones, every reflog file then decoded by Storage.Reflog and compared entry by entry with `git log -g`; non-trivial = an entry with a message needing normalisation, a non-UTC zone or an odd identity (A), a history with at least 3 reflog entries (B); distinct = (part, message shape, zone, identity shape, number of entries) classes")
 	c.Assume("git log -g lists every reflog entry whose new id is a commit and none whose new id is null (branch renames write such entries; they are left out of the comparison); a zero timestamp is excluded (git treats such a line as corrupt); a zone of -0000 cannot be represented by time.Time and git itself rewrites it to +0000 when writing, so zones are compared as offsets; identities containing '<', '>' or a newline are outside the space (they cannot be represented in the line format by git either); old ids are observed through git's gap warning and date look-up, the only places git exposes them")
-	c52A(c)
+	if os.Getenv("S13_ONLY_NEW") == "" { // development aid: skip the unchanged parts
+		c52A(c)
+	}
 	c52B(c)
 }
 
@@ -345,20 +347,31 @@ func c52A(c *fw.Ctx) {
 // ------------------------------------------------------------------ part B
 
 func c52B(c *fw.Ctx) {
-	maxOps := c.Pick(3, 4)
+	if os.Getenv("S13_ONLY_NEW") == "" {
+		c52BFmt(c, "sha1", 40, c.Pick(3, 4), "B")
+	} else {
+		c52BFmt(c, "sha1", 40, 1, "B")
+	}
+	// the same with 64-digit object ids (the decoder splits the line at the ids)
+	c52BFmt(c, "sha256", 64, c.Pick(2, 3), "B256")
+	c52A256(c)
+}
+
+func c52BFmt(c *fw.Ctx, objFormat string, hexLen, maxOps int, part string) {
 	ops := []string{"commit", "checkout -b", "checkout main", "reset --hard HEAD~1", "branch -m", "update-ref -m"}
-	c.Bound("b_ops", ops)
-	c.Bound("b_max_ops", maxOps)
+	c.Bound(strings.ToLower(part)+"_ops", ops)
+	c.Bound(strings.ToLower(part)+"_max_ops", maxOps)
 	seqs := fw.Seqs(len(ops), maxOps)
 	type who struct{ name, email, zone string }
-	whos := []who{{"C O Mitter", "c@example.com", "+0000"}, {"Zed", "z@x", "+0530"}, {"J\xc3\xbcrgen", "j@x", "-1200"}, {"Half", "h@x", "-0330"}, {"Dash", "d@x", "-0000"}}
-	c.Bound("b_committers", whos)
+	whos := []who{{"C O Mitter", "c@example.com", "+0000"}, {"Zed", "z@x", "+0530"}, {"J\xc3\xbcrgen", "j@x", "-1200"}, {"Half", "h@x", "-0330"}, {"Dash", "d@x", "-0000"},
+		{"Ta\tb", "t@x", "+0545"}, {"Dot.", "a b@x", "-0930"}}
+	c.Bound(strings.ToLower(part)+"_committers", whos)
 	type failure struct{ key, what string }
 	var mu sync.Mutex
 	var fails []failure
 	c.ParDo(len(seqs), 0, func(si int) {
 		seq := seqs[si]
-		g0, dir := c.InitRepo("c52b", "sha1", false)
+		g0, dir := c.InitRepo("c52b", objFormat, false)
 		defer os.RemoveAll(dir)
 		step := 0
 		run := func(args ...string) {
@@ -422,9 +435,9 @@ func c52B(c *fw.Ctx) {
 			rawLines := strings.Split(strings.TrimSuffix(string(raw), "\n"), "\n")
 			if err == nil && len(es) == len(rawLines) { // old ids: first 40 hex digits of each line (format fact)
 				for k, e := range es {
-					if len(rawLines[k]) > 40 && e.OldHash.String() != rawLines[k][:40] {
+					if len(rawLines[k]) > hexLen && e.OldHash.String() != rawLines[k][:hexLen] {
 						mu.Lock()
-						fails = append(fails, failure{"B go-git decodes a different old id", fmt.Sprintf("ops %v ref %s entry %d", seq, ref, k)})
+						fails = append(fails, failure{part + " go-git decodes a different old id", fmt.Sprintf("ops %v ref %s entry %d", seq, ref, k)})
 						mu.Unlock()
 					}
 				}
@@ -437,7 +450,11 @@ func c52B(c *fw.Ctx) {
 				mu.Unlock()
 			}
 			if err != nil {
-				add("B go-git cannot decode a reflog git wrote", err.Error())
+				why := err.Error()
+				if i := strings.Index(why, ":"); i > 0 {
+					why = why[:i]
+				}
+				add(part+" go-git cannot decode a reflog git wrote: "+why, fmt.Sprintf("%v; file %q", err, raw))
 				continue
 			}
 			// `git log -g` does not show entries whose new id is null (branch renames write one)
@@ -449,7 +466,7 @@ func c52B(c *fw.Ctx) {
 			}
 			es = vis
 			if len(es) != len(sh) {
-				add("B go-git decodes a different number of entries than git shows", fmt.Sprintf("%d vs %d; file %q", len(es), len(sh), raw))
+				add(part+" go-git decodes a different number of entries than git shows", fmt.Sprintf("%d vs %d; file %q", len(es), len(sh), raw))
 				continue
 			}
 			for k, e := range es {
@@ -471,19 +488,87 @@ func c52B(c *fw.Ctx) {
 					diffs = append(diffs, "message")
 				}
 				if len(diffs) > 0 {
-					add("B go-git decodes a different "+strings.Join(diffs, ", "), fmt.Sprintf("entry %d: go-git %+v, git %+v", k, *e, got))
+					add(part+" go-git decodes a different "+strings.Join(diffs, ", "), fmt.Sprintf("entry %d: go-git %+v, git %+v", k, *e, got))
 				}
 			}
 		}
 		if total >= 3 {
-			c.Class(fmt.Sprintf("B|%d refs|%d entries", len(live), total))
+			c.Class(fmt.Sprintf("%s|%d refs|%d entries", part, len(live), total))
 		}
 		if si%97 == 11 {
-			c.Sample(map[string]any{"part": "B", "ops": seq, "refs": live, "entries_shown_by_git": total})
+			c.Sample(map[string]any{"part": part, "ops": seq, "refs": live, "entries_shown_by_git": total})
 		}
 	})
 	sort.Slice(fails, func(a, b int) bool { return fails[a].key+fails[a].what < fails[b].key+fails[b].what })
 	for _, f := range fails {
 		c.Fail(f.key, f.key+" :: "+f.what, map[string]any{"detail": f.what})
+	}
+}
+
+// c52A256: go-git appends to a reflog of a sha256 repository (64-digit ids,
+// including the all-zero old id of a created ref); git lists and chain-checks it.
+func c52A256(c *fw.Ctx) {
+	g, dir := c.InitRepo("c52a256", "sha256", false)
+	ids := g.BuildHistory([]fw.CommitSpec{
+		{Time: 1600000000, Files: map[string]fw.FileSpec{"f": {Data: "1\n"}}},
+		{Parents: []int{0}, Time: 1600000100, Files: map[string]fw.FileSpec{"f": {Data: "2\n"}}},
+		{Parents: []int{1}, Time: 1600000200, Files: map[string]fw.FileSpec{"f": {Data: "3\n"}}},
+	}, false)
+	if len(ids[0]) != 64 {
+		fw.Abort("sha256 repository gives %d-digit ids", len(ids[0]))
+	}
+	zones := []int{0, 5*3600 + 1800, -(3*3600 + 1800)}
+	msgs := []string{"first", "", " two  words\n"}
+	want := []string{"first", "", "two words"}
+	st := filesystem.NewStorage(osfs.New(filepath.Join(dir, ".git")), cache.NewObjectLRUDefault())
+	var fails [][2]string
+	for variant, zeroOld := range []plumbing.Hash{plumbing.NewHash(strings.Repeat("0", 64)), plumbing.ZeroHash} {
+		ref := fmt.Sprintf("refs/heads/z%d", variant)
+		g.C("core.logAllRefUpdates=false").MustRun("update-ref", ref, ids[2])
+		prev := zeroOld
+		var aerr error
+		for k := 0; k < 3; k++ {
+			c.Eval()
+			func() {
+				defer func() {
+					if r := recover(); r != nil {
+						aerr = fmt.Errorf("panic: %v", r)
+					}
+				}()
+				if err := st.AppendReflog(plumbing.ReferenceName(ref), &reflog.Entry{OldHash: prev, NewHash: plumbing.NewHash(ids[k]),
+					Committer: reflog.Signature{Name: "A U Thor", Email: "a@x", When: time.Unix(1700000000+int64(k), 0).In(time.FixedZone("", zones[k]))}, Message: msgs[k]}); err != nil {
+					aerr = err
+				}
+			}()
+			prev = plumbing.NewHash(ids[k])
+		}
+		vname := []string{"64-digit zero id", "plumbing.ZeroHash"}[variant]
+		if aerr != nil {
+			fails = append(fails, [2]string{"A256 AppendReflog fails (" + vname + ")", aerr.Error()})
+			continue
+		}
+		raw, _ := os.ReadFile(filepath.Join(dir, ".git", "logs", filepath.FromSlash(ref)))
+		r := g.Run("log", "-g", "--date=raw", "--format=%H%x00%gD%x00%gn%x00%ge%x00%gs%x00%x01", ref)
+		sh := c52GitLog(g, []string{ref})[ref]
+		c.Class(fmt.Sprintf("A256|%s|%d entries listed", vname, len(sh)))
+		if len(sh) != 3 {
+			fails = append(fails, [2]string{"A256 git lists a different number of entries (" + vname + " as the old id of a created ref)", fmt.Sprintf("%d of 3 (stderr %q); file %q", len(sh), r.Err, raw)})
+			continue
+		}
+		for k := 0; k < 3; k++ {
+			got := sh[2-k]
+			if got.New != ids[k] || got.Name != "A U Thor" || got.Email != "a@x" || got.Secs != 1700000000+int64(k) || c52ZoneSecs(got.Zone) != zones[k] || got.Subject != want[k] {
+				fails = append(fails, [2]string{"A256 git lists a different entry", fmt.Sprintf("entry %d: %+v; file %q", k, got, raw)})
+			}
+		}
+		for k := 0; k < 3; k++ {
+			rr := g.Run("rev-parse", "--verify", fmt.Sprintf("%s@{%d}", ref, k))
+			if !rr.OK() || rr.S() != ids[2-k] || bytes.Contains(rr.Err, []byte("gap")) || bytes.Contains(rr.Err, []byte("warning")) {
+				fails = append(fails, [2]string{"A256 git's chain check of ref@{n} fails (" + vname + ")", fmt.Sprintf("%s@{%d}: %q %q", ref, k, rr.Out, rr.Err)})
+			}
+		}
+	}
+	for _, f := range fails {
+		c.Fail(f[0], f[0]+" :: "+f[1], map[string]any{"detail": f[1]})
 	}
 }
